@@ -161,6 +161,10 @@ def to_ast(f):
                 "vars": varlist(f.reduced_vars), "terms": [to_ast(t) for t in f.terms]}
     if isinstance(f, Delta):
         return {"c": "Delta", "terms": [[n, to_ast(p), to_ast(ld)] for n, (p, ld) in f.terms]}
+    if type(f).__name__ == "Gaussian":
+        ins = [[k, dom_spec(d)] for k, d in f.inputs.items()]
+        return {"c": "Gauss", "ins": ins, "rank": int(f.prec_sqrt.shape[-1]),
+                "S": data_scalars(f.prec_sqrt), "w": data_scalars(f.white_vec)}
     raise Unrepresentable("class %s" % type(f).__name__)
 
 
